@@ -100,6 +100,21 @@ void ABTI_ythread_callback_resume_yield_to(void *arg)
     ABTI_pool_dec_num_blocked(p_next->thread.p_pool);
 }
 
+/* Handle requests of a ULT that is being suspended.  The caller has already
+ * counted p_prev as blocked in its current pool.  If the request handling
+ * migrates p_prev, this count must move to the new pool since the resumer
+ * decrements num_blocked of the pool associated with p_prev at that time. */
+static inline void ythread_handle_request_on_suspend(ABTI_ythread *p_prev)
+{
+    ABTI_pool *p_pool = p_prev->thread.p_pool;
+    ABTI_thread_handle_request(&p_prev->thread, ABT_FALSE);
+    ABTI_pool *p_new_pool = p_prev->thread.p_pool;
+    if (ABTU_unlikely(p_new_pool != p_pool)) {
+        ABTI_pool_inc_num_blocked(p_new_pool);
+        ABTI_pool_dec_num_blocked(p_pool);
+    }
+}
+
 void ABTI_ythread_callback_suspend(void *arg)
 {
     ABTI_ythread *p_prev = (ABTI_ythread *)arg;
@@ -107,7 +122,7 @@ void ABTI_ythread_callback_suspend(void *arg)
      * migration) */
     ABTI_pool_inc_num_blocked(p_prev->thread.p_pool);
     /* Request handling.  p_prev->thread.p_pool might be changed. */
-    ABTI_thread_handle_request(&p_prev->thread, ABT_FALSE);
+    ythread_handle_request_on_suspend(p_prev);
     /* Set this thread's state to BLOCKED. */
     ABTD_atomic_release_store_int(&p_prev->thread.state,
                                   ABT_THREAD_STATE_BLOCKED);
@@ -130,7 +145,7 @@ void ABTI_ythread_callback_resume_suspend_to(void *arg)
         ABTI_pool_dec_num_blocked(p_next_pool);
     }
     /* Request handling.  p_prev->thread.p_pool might be changed. */
-    ABTI_thread_handle_request(&p_prev->thread, ABT_FALSE);
+    ythread_handle_request_on_suspend(p_prev);
     /* Set this thread's state to BLOCKED. */
     ABTD_atomic_release_store_int(&p_prev->thread.state,
                                   ABT_THREAD_STATE_BLOCKED);
@@ -170,7 +185,7 @@ void ABTI_ythread_callback_suspend_unlock(void *arg)
     /* Increase the number of blocked threads */
     ABTI_pool_inc_num_blocked(p_prev->thread.p_pool);
     /* Request handling.  p_prev->thread.p_pool might be changed. */
-    ABTI_thread_handle_request(&p_prev->thread, ABT_FALSE);
+    ythread_handle_request_on_suspend(p_prev);
     /* Set this thread's state to BLOCKED. */
     ABTD_atomic_release_store_int(&p_prev->thread.state,
                                   ABT_THREAD_STATE_BLOCKED);
@@ -189,7 +204,7 @@ void ABTI_ythread_callback_suspend_join(void *arg)
     /* Increase the number of blocked threads */
     ABTI_pool_inc_num_blocked(p_prev->thread.p_pool);
     /* Request handling.  p_prev->thread.p_pool might be changed. */
-    ABTI_thread_handle_request(&p_prev->thread, ABT_FALSE);
+    ythread_handle_request_on_suspend(p_prev);
     /* Set this thread's state to BLOCKED. */
     ABTD_atomic_release_store_int(&p_prev->thread.state,
                                   ABT_THREAD_STATE_BLOCKED);
@@ -211,7 +226,7 @@ void ABTI_ythread_callback_suspend_replace_sched(void *arg)
     /* Increase the number of blocked threads */
     ABTI_pool_inc_num_blocked(p_prev->thread.p_pool);
     /* Request handling.  p_prev->thread.p_pool might be changed. */
-    ABTI_thread_handle_request(&p_prev->thread, ABT_FALSE);
+    ythread_handle_request_on_suspend(p_prev);
     /* Set this thread's state to BLOCKED. */
     ABTD_atomic_release_store_int(&p_prev->thread.state,
                                   ABT_THREAD_STATE_BLOCKED);
